@@ -191,26 +191,29 @@ Definition tok_effect (res : nat -> nat -> sr_res) (c : cell) (t tgt : nat)
   | CErr => Done (Some (CShift tgt), [])
   end.
 
+(* Symbol::Token(s_tidx) arm *)
+Definition tok_edge (res : nat -> nat -> sr_res) (r : row) (i tgt : nat) : outcome row :=
+  match nth_error (r_actions r) i with
+  | None => Panic
+  | Some c =>
+    do eff <- tok_effect res c i tgt;
+    Done {| r_actions := match fst eff with Some c' => set_nth (r_actions r) i c' | None => r_actions r end;
+            r_gotos := r_gotos r;
+            r_sa := set_nth (r_sa r) i true;
+            r_conflicts := r_conflicts r ++ snd eff |}
+  end.
+
+(* Symbol::Rule(s_ridx) arm (the debug_assert!(gotos[off] == 0) is compiled out in release) *)
+Definition rule_edge (r : row) (i tgt : nat) : outcome row :=
+  if i <? length (r_gotos r) then
+    Done {| r_actions := r_actions r; r_gotos := set_nth (r_gotos r) i (tgt + 1);
+            r_sa := r_sa r; r_conflicts := r_conflicts r |}
+  else Panic.
+
 Definition edge_step (res : nat -> nat -> sr_res) (acc : outcome row) (e : nat * nat) : outcome row :=
   do r <- acc;
-  let sym := fst e in
-  let tgt := snd e in
-  let i := Nat.div2 sym in
-  if Nat.even sym then
-    match nth_error (r_actions r) i with
-    | None => Panic
-    | Some c =>
-      do eff <- tok_effect res c i tgt;
-      Done {| r_actions := match fst eff with Some c' => set_nth (r_actions r) i c' | None => r_actions r end;
-              r_gotos := r_gotos r;
-              r_sa := set_nth (r_sa r) i true;
-              r_conflicts := r_conflicts r ++ snd eff |}
-    end
-  else
-    if i <? length (r_gotos r) then
-      Done {| r_actions := r_actions r; r_gotos := set_nth (r_gotos r) i (tgt + 1);
-              r_sa := r_sa r; r_conflicts := r_conflicts r |}
-    else Panic.
+  if Nat.even (fst e) then tok_edge res r (Nat.div2 (fst e)) (snd e)
+  else rule_edge r (Nat.div2 (fst e)) (snd e).
 
 Definition process_edges (res : nat -> nat -> sr_res) (init : row) (es : list (nat * nat)) : outcome row :=
   fold_left (edge_step res) es (Done init).
